@@ -22,6 +22,10 @@ pub fn judge_value(ctx: &Ctx, case: &Value) -> Result<(), Fail> {
         };
         return props::tree::replay(ctx, &sc, oracle);
     }
+    if let Some(c) = case.get("wide_range_case") {
+        let c: GenCase = serde_json::from_value(c.clone()).map_err(|e| Fail::new("harness:replay", e.to_string()))?;
+        return props::outputs::probe_target(&c).map(|_| ());
+    }
     if let Some((judge, want)) = props::outputs::judge_for(&ctx.prop) {
         let c: GenCase = serde_json::from_value(case.clone()).map_err(|e| Fail::new("harness:replay", e.to_string()))?;
         return props::outputs::replay_judge(ctx, judge, want, &c);
